@@ -74,7 +74,9 @@ class wind(PseudoNetCDFFile):
         record_size = rf.record_size
         while rf.record_size == record_size:
             lays += 1
-            rf.next()
+            if not rf.next():
+                raise ValueError('Incomplete wind file: the first time ' +
+                                 'step is not closed by its final record')
         self.__dummy_length = (rf.record_size + 8) // 4
         lays //= 2
         record = rows * cols * 4 + 8
